@@ -1,4 +1,498 @@
-import SdbModel.Model.Table
-/-! # C07 — theorems under construction (see DESIGN.md section 4) -/
+import SdbModel.Lemmas.ChangesOrder
+
+/-!
+# C07 — Change iterators: ordered, complete, convergent, committed-only
+
+> A change iterator delivers changes in strictly increasing revision order; whenever Next(snapshot)
+> reports pending changes (it returns an already-closed watch channel) and the returned sequence has
+> been fully consumed, replaying everything delivered so far (an update sets the object, a delete
+> removes it) yields exactly the objects and revisions of that snapshot, every deletion committed
+> after the iterator was created is delivered, and partially consumed sequences lose nothing.  Only
+> committed changes are ever delivered, whatever kind of transaction is passed to Next; when Next
+> instead returns an open watch channel it delivers nothing, and that channel closes as soon as a
+> commit that changes the table has been published, so a consumer that waits on it never misses a
+> change.
+
+Theorems over `Model.Table` (`mergeChanges`, `ChangeIter.refresh` / `ChangeIter.stale` with
+`fixedF3 = true`, `modify`, `delete`, `gcScan`, `gcApply`, `DB.beginW/commit/abort`) and the driver's
+iterator steps restated in `Lemmas/ChangesRun.lean` (`iterCreate`, `iterNext`, `iterConsume`, `iterClose`).
+Two layers: table-level theorems about ONE refresh on one committed table under the table invariant
+`Chg.TInv` (`C07_merge_*`, `C07_refresh_*`, `C07_replay_*`, `C07_partial_*`), and database-level theorems for
+EVERY state reachable (`Chg.Reach`) by write transactions, `Changes()`, `Next` by any iterator at any time
+(also inside its creating transaction), `Close` and collector runs in any interleaving (`C07_reachable_*`,
+`C07_next_*`, `C07_open_channel_*`), where `Chg.Synced` ties the consumer's replayed view to the committed
+table.  The invariants hold initially and are preserved by every step (`C07_invariant_reachable`).
+Standing assumption on `Next`: it reads the CURRENT committed root (directly or through the open write
+transaction); passing an older snapshot after a newer one is refuted in `C07_older_snapshot_refuted`.
+-/
 namespace Sdb
+open Tbl Chg Chg.OMap
+
+/-! ## (a) order: the dual iterator -/
+
+/-- merging loses and invents nothing -/
+theorem C07_merge_perm (l r : List Change) : (mergeChanges l r).Perm (l ++ r) :=
+  mergeChanges_perm l r
+
+/-- two strictly ascending lists with disjoint revisions merge into a strictly ascending list -/
+theorem C07_merge_ascending (l r : List Change) (hl : AscRev l) (hr : AscRev r)
+    (hd : ∀ a ∈ l, ∀ b ∈ r, a.rev ≠ b.rev) : AscRev (mergeChanges l r) :=
+  mergeChanges_asc l r hl hr hd
+
+/-- the sequence installed by `refresh` is strictly ascending in revision (committed table satisfying
+    the table invariant, which every reachable table does: `C07_table_invariant_reachable`) -/
+theorem C07_refresh_ascending (it : ChangeIter) (committed current : List TableS)
+    (h : TInv (tbl committed it.table)) (ps : List Change)
+    (hp : (it.refresh committed current true).pending = some ps) : AscRev ps := by
+  rw [(refresh_pending_some it committed current ps hp).1]
+  exact pendingOf_asc h _ _
+
+/-- the delivered revision is the object's revision, and no two delivered changes concern the same
+    object twice with the same revision: consecutive elements strictly increase -/
+theorem C07_refresh_strictly_increasing (it : ChangeIter) (committed current : List TableS)
+    (h : TInv (tbl committed it.table)) (ps : List Change)
+    (hp : (it.refresh committed current true).pending = some ps) (i j : Nat) (hij : i < j) (hj : j < ps.length) :
+    (ps[i]'(by omega)).rev < (ps[j]'hj).rev := by
+  have e : ps = pendingOf (tbl committed it.table) it.revision it.deleteRevision :=
+    (refresh_pending_some it committed current ps hp).1
+  subst e
+  exact List.pairwise_iff_getElem.mp (pendingOf_asc h _ _) i j (by omega) hj hij
+
+/-! ## only committed state is read -/
+
+/-- with the fix for F3 the result of `refresh` does not depend on the transaction's own (uncommitted)
+    root at all -/
+theorem C07_refresh_only_committed (it : ChangeIter) (committed c₁ c₂ : List TableS) :
+    it.refresh committed c₁ true = it.refresh committed c₂ true := rfl
+
+/-- … hence neither does `Next`: whatever transaction it is given, only its committed root matters -/
+theorem C07_next_only_committed (db : DB) (ci : Nat) (committed c₁ c₂ : List TableS) (k : Int) :
+    iterNext db ci committed c₁ k = iterNext db ci committed c₂ k := rfl
+
+/-- exactly the committed changes above the two cursors are delivered: an update for every object of
+    the committed revision index with revision above `revision`, a delete for every object of the
+    committed graveyard with revision above `deleteRevision` — nothing else -/
+theorem C07_refresh_members (it : ChangeIter) (committed current : List TableS)
+    (h : TInv (tbl committed it.table))
+    (hr : it.revision + 1 < 2 ^ 64) (hd : it.deleteRevision + 1 < 2 ^ 64) (ps : List Change)
+    (hp : (it.refresh committed current true).pending = some ps) (c : Change) :
+    c ∈ ps ↔ c.rev = c.obj.rev ∧
+      ((c.deleted = false ∧ (revKey c.obj.rev, c.obj) ∈ (tbl committed it.table).revIdx ∧ it.revision < c.rev) ∨
+       (c.deleted = true ∧ (revKey c.obj.rev, c.obj) ∈ (tbl committed it.table).graveRev ∧ it.deleteRevision < c.rev)) := by
+  have e : ps = pendingOf (tbl committed it.table) it.revision it.deleteRevision :=
+    (refresh_pending_some it committed current ps hp).1
+  subst e
+  exact mem_pendingOf h _ _ hr hd c
+
+/-- a snapshot that predates the iterator (its table revision is below the revision at which the
+    iterator was created: the creating transaction is not in it) delivers nothing -/
+theorem C07_refresh_stale_delivers_nothing (it : ChangeIter) (committed current : List TableS)
+    (h : (tbl committed it.table).rev < it.base) : (it.refresh committed current true).pending = none :=
+  refresh_stale it committed current true ((stale_iff it committed).mpr h)
+
+/-- every retained deletion above the iterator's delete cursor is in the sequence -/
+theorem C07_deletions_delivered (it : ChangeIter) (committed current : List TableS)
+    (h : TInv (tbl committed it.table))
+    (hr : it.revision + 1 < 2 ^ 64) (hd : it.deleteRevision + 1 < 2 ^ 64) (ps : List Change)
+    (hp : (it.refresh committed current true).pending = some ps) (k : Key) (g : Obj)
+    (hg : (k, g) ∈ (tbl committed it.table).graveRev) (hlt : it.deleteRevision < g.rev) :
+    ({ obj := g, rev := g.rev, deleted := true } : Change) ∈ ps := by
+  rw [C07_refresh_members it committed current h hr hd ps hp]
+  have hk := (h.grK _ _ hg).1
+  exact ⟨rfl, Or.inr ⟨rfl, hk ▸ hg, hlt⟩⟩
+
+/-- every live object above the iterator's update cursor is in the sequence -/
+theorem C07_updates_delivered (it : ChangeIter) (committed current : List TableS)
+    (h : TInv (tbl committed it.table))
+    (hr : it.revision + 1 < 2 ^ 64) (hd : it.deleteRevision + 1 < 2 ^ 64) (ps : List Change)
+    (hp : (it.refresh committed current true).pending = some ps) (k : Key) (o : Obj)
+    (ho : (k, o) ∈ (tbl committed it.table).primary) (hlt : it.revision < o.rev) :
+    ({ obj := o, rev := o.rev, deleted := false } : Change) ∈ ps := by
+  rw [C07_refresh_members it committed current h hr hd ps hp]
+  have hk := h.pK _ _ ho
+  exact ⟨rfl, Or.inl ⟨rfl, (h.pr o).mp (hk ▸ ho), hlt⟩⟩
+
+/-! ## (b) completeness + convergence on one snapshot -/
+
+/-- the view "all live objects of `t` up to revision `r`" -/
+def liveUpTo (t : TableS) (r : Nat) : View := fun id => (t.primary.get id).filter (fun o => o.rev ≤ r)
+
+/-- that view is in step with `t` at cursors `(r, d)`, whatever `d` -/
+theorem C07_liveUpTo_synced (t : TableS) (h : TInv t) (r d : Nat) : Synced (liveUpTo t r) r d t := by
+  constructor
+  · intro o ho hle
+    have := (get_eq_some_iff h.pS _ _).mpr ho
+    simp [liveUpTo, this, hle]
+  · intro id hne
+    left
+    unfold liveUpTo at hne
+    cases hg : t.primary.get id with
+    | none => rw [hg] at hne; simp at hne
+    | some o => exact ⟨o, (get_eq_some_iff h.pS _ _).mp hg⟩
+
+/-- **convergence**: replaying the whole sequence of a refresh onto a view that is in step with the
+    committed table yields exactly its live objects with their revisions.  `Synced` packages the two
+    hypotheses of the property: the view holds the live objects up to `revision`, and whatever else it
+    holds is still retained in the graveyard above `deleteRevision` (C08 proves that retention:
+    `C08_reachable_retention`). -/
+theorem C07_replay_converges (it : ChangeIter) (committed current : List TableS) (M : View)
+    (h : TInv (tbl committed it.table))
+    (hs : Synced M it.revision it.deleteRevision (tbl committed it.table))
+    (hr : it.revision + 1 < 2 ^ 64) (hd : it.deleteRevision + 1 < 2 ^ 64) (ps : List Change)
+    (hp : (it.refresh committed current true).pending = some ps) :
+    ∀ id, replay M ps id = (tbl committed it.table).primary.get id := by
+  have e : ps = pendingOf (tbl committed it.table) it.revision it.deleteRevision :=
+    (refresh_pending_some it committed current ps hp).1
+  subst e
+  exact hs.replay_all h hr hd
+
+/-- the form of the task statement: replaying the changes of `refresh` with `revision = r`,
+    `deleteRevision = d` onto "the live objects with revision ≤ r" yields the live objects of the table -/
+theorem C07_replay_from_liveUpTo (t : TableS) (h : TInv t) (r d : Nat) (hr : r + 1 < 2 ^ 64) (hd : d + 1 < 2 ^ 64) :
+    ∀ id, replay (liveUpTo t r) (pendingOf t r d) id = t.primary.get id :=
+  (C07_liveUpTo_synced t h r d).replay_all h hr hd
+
+/-- the result of the replay lists exactly the objects `All` returns, with their revisions -/
+theorem C07_replay_matches_queries (t : TableS) (h : TInv t) (M : View) (r d : Nat) (hs : Synced M r d t)
+    (hr : r + 1 < 2 ^ 64) (hd : d + 1 < 2 ^ 64) (o : Obj) :
+    replay M (pendingOf t r d) o.id = some o ↔ o ∈ qAll t := by
+  rw [hs.replay_all h hr hd, get_eq_some_iff h.pS]
+  simp only [qAll, List.mem_map, Prod.exists, exists_eq_right]
+  constructor
+  · intro hm; exact ⟨_, hm⟩
+  · rintro ⟨k, hm⟩
+    have := h.pK _ _ hm
+    exact this ▸ hm
+
+/-! ## (c) partial consumption -/
+
+/-- after ANY prefix of the sequence has been consumed, the view is in step with the same snapshot at
+    the advanced cursors, and a refresh at the advanced cursors yields exactly the unconsumed suffix:
+    nothing is lost and nothing is delivered twice -/
+theorem C07_partial_consumption (t : TableS) (h : TInv t) (M : View) (r d : Nat) (hs : Synced M r d t)
+    (hr : r + 1 < 2 ^ 64) (hd : d + 1 < 2 ^ 64) (pre post : List Change) (hp : pendingOf t r d = pre ++ post) :
+    Synced (replay M pre) (cursors r d pre).1 (cursors r d pre).2 t ∧
+    pendingOf t (cursors r d pre).1 (cursors r d pre).2 = post := by
+  obtain ⟨a, b, _, _⟩ := hs.consume_prefix h pre post hr hd hp
+  exact ⟨a, b⟩
+
+/-- consuming a prefix, refreshing on the same snapshot and consuming the rest gives the snapshot -/
+theorem C07_partial_then_rest (t : TableS) (h : TInv t) (M : View) (r d : Nat) (hs : Synced M r d t)
+    (hr : r + 1 < 2 ^ 64) (hd : d + 1 < 2 ^ 64) (pre post : List Change) (hp : pendingOf t r d = pre ++ post) :
+    ∀ id, replay (replay M pre) (pendingOf t (cursors r d pre).1 (cursors r d pre).2) id = t.primary.get id := by
+  obtain ⟨a, _, c, e⟩ := hs.consume_prefix h pre post hr hd hp
+  exact a.replay_all h c e
+
+/-- being in step survives later commits: writes (with some tracker registered, so that deletions are
+    retained) keep a view in step at unchanged cursors — this is why a partially consumed sequence can be
+    dropped and `Next` called again on a newer snapshot -/
+theorem C07_synced_survives_writes (t t' : TableS) (w : WStep t t') (h : TInv t) (M : View) (r d : Nat)
+    (hs : Synced M r d t) (hr : r ≤ t.rev) (hd : d ≤ t.rev) (htr : t.trackers ≠ []) : Synced M r d t' :=
+  w.synced h hs hr hd htr
+
+/-! ## every reachable state -/
+
+/-- the table invariant holds for every table reachable by `modify`, `delete`, collector steps and
+    tracker / lock / initializer bookkeeping from an empty table -/
+theorem C07_table_invariant_reachable (t : TableS) (h : TReach t) : TInv t := h.tinv
+
+/-- the database invariant holds initially and is preserved by every step, hence in every reachable state -/
+theorem C07_invariant_reachable (s : St) (h : Reach s) : Inv s := h.inv
+
+/-- in every reachable state every committed table satisfies the table invariant -/
+theorem C07_reachable_tables (s : St) (h : Reach s) (i : Nat) : TInv (tbl s.db.root i) := h.inv.rootT i
+
+/-- `DeleteAll` is a run of `delete` steps: it keeps the state reachable (with room in the revision counter) -/
+theorem C07_deleteAll_stays_reachable (s : St) (es : List TableS) (i : Nat) (hr : Reach s)
+    (hw : s.db.wtxn = some es) (hb : (tbl es i).rev + (tbl es i).primary.length + 1 < 2 ^ 64) :
+    Reach { s with db := setW s.db i (deleteAll (tbl es i)).1 } := hr.deleteAll s es i hw hb
+
+/-- an iterator whose tracker is registered in the committed root is in good standing; so is one created
+    in the open write transaction before that transaction wrote to the table (`Chg.Live`) -/
+theorem C07_registered_is_live (s : St) (it : ChangeIter)
+    (hr : it.tracker ∈ (tbl s.db.root it.table).trackers) : Live s it := Or.inl hr
+
+/-- **in every reachable state** the view a consumer has built from everything iterator `ci` delivered
+    so far is in step with the committed table at the iterator's cursors -/
+theorem C07_reachable_synced (s : St) (h : Reach s) (ci : Nat) (it : ChangeIter)
+    (hi : s.db.iters[ci]? = some it) (hc : it.closed = false) (hl : Live s it) :
+    Synced (s.view ci) it.revision it.deleteRevision (tbl s.db.root it.table) ∧
+    it.revision ≤ (tbl s.db.root it.table).rev ∧ it.deleteRevision ≤ (tbl s.db.root it.table).rev :=
+  let r := h.inv.reg ci it hi hc hl
+  ⟨r.synced, r.rle, r.dle⟩
+
+/-- **strictly increasing over the whole life of the iterator**: in every reachable state everything
+    iterator `ci` has delivered so far, across all `Next` calls, snapshots, partial consumptions and
+    collector runs, is strictly ascending in revision -/
+theorem C07_reachable_log_ascending (s : St) (h : Reach s) (ci : Nat) (it : ChangeIter)
+    (hi : s.db.iters[ci]? = some it) (hc : it.closed = false) (hl : Live s it) : AscRev (s.log ci) :=
+  (h.inv3.ord ci it hi hc hl).asc
+
+/-- an iterator created in the open write transaction AFTER that transaction wrote to the table is not
+    in good standing yet — and delivers nothing until the transaction is committed: every committed
+    snapshot is stale for it -/
+theorem C07_next_before_commit_delivers_nothing (s : St)
+    (ci : Nat) (it : ChangeIter) (k : Int) (current : List TableS)
+    (hi : s.db.iters[ci]? = some it) (hb : (tbl s.db.root it.table).rev < it.base) :
+    (iterNext s.db ci s.db.root current k).2.1 = [] := by
+  rcases iterNext_spec s.db ci s.db.root current k it hi with ⟨e, _, _⟩ | ⟨_, e⟩ | ⟨hst, _, _⟩
+  · rw [e]
+  · rw [e]
+  · have := (stale_iff it s.db.root).mpr hb
+    rw [this] at hst; cases hst
+
+/-- … and the commit puts it in good standing: every open iterator whose tracker is registered in the
+    committed root is covered by the theorems of this section -/
+theorem C07_every_registered_iterator_covered (s : St) (h : Reach s) (ci : Nat) (it : ChangeIter)
+    (hi : s.db.iters[ci]? = some it) (hc : it.closed = false)
+    (hr : it.tracker ∈ (tbl s.db.root it.table).trackers) :
+    Synced (s.view ci) it.revision it.deleteRevision (tbl s.db.root it.table) ∧ it.base ≤ (tbl s.db.root it.table).rev :=
+  let r := h.inv.reg ci it hi hc (Or.inl hr)
+  ⟨r.synced, r.base⟩
+
+/-- **every deletion the consumer has not seen yet is pending**: in every reachable state, for every key
+    the replayed view of an iterator in good standing holds and that is no longer live, the sequence of the
+    next refresh contains its deletion -/
+theorem C07_reachable_deletion_pending (s : St) (h : Reach s) (ci : Nat) (it : ChangeIter)
+    (hi : s.db.iters[ci]? = some it) (hc : it.closed = false) (hl : Live s it)
+    (id : Key) (hview : s.view ci id ≠ none)
+    (hdead : (tbl s.db.root it.table).primary.get id = none) :
+    ∃ c ∈ pendingOf (tbl s.db.root it.table) it.revision it.deleteRevision, c.deleted = true ∧ c.obj.id = id := by
+  obtain ⟨rs, rr, rd, _⟩ := h.inv.reg ci it hi hc hl
+  have hT := h.inv.rootT it.table
+  have hb := hT.bound
+  rcases rs.stale id hview with ⟨o, ho⟩ | ⟨g, hg, hlt⟩
+  · exact absurd ho ((get_eq_none_iff hT.pS _).mp hdead o)
+  · have hk := hT.gK _ _ hg
+    refine ⟨{ obj := g, rev := g.rev, deleted := true }, ?_, rfl, hk.symm⟩
+    exact (mem_pendingOf hT _ _ (by omega) (by omega) _).mpr ⟨rfl, Or.inr ⟨rfl, (hT.gg g).mp (hk ▸ hg), hlt⟩⟩
+
+/-- **end to end**: in any reachable state, when `Next` on the committed root reports pending changes
+    (closed channel) and the sequence is consumed to its end (`k < 0`), replaying everything delivered
+    so far yields exactly the objects and revisions of that root -/
+theorem C07_next_full_yields_snapshot (s : St) (h : Reach s) (ci : Nat) (it : ChangeIter) (k : Int)
+    (current : List TableS)
+    (hi : s.db.iters[ci]? = some it) (hc : it.closed = false) (hl : Live s it) (hk : k < 0)
+    (hclosed : (iterNext s.db ci s.db.root current k).2.2 = true) :
+    ∀ id, replay (s.view ci) (iterNext s.db ci s.db.root current k).2.1 id =
+      (tbl s.db.root it.table).primary.get id := by
+  obtain ⟨rs, rr, rd, rm, rb, _⟩ := h.inv.reg ci it hi hc hl
+  have hT := h.inv.rootT it.table
+  have hb := hT.bound
+  have hns : it.stale s.db.root = false := by
+    cases hst : it.stale s.db.root with
+    | false => rfl
+    | true =>
+      have := (stale_iff it s.db.root).mp hst
+      have e' : (s.db.root.getD it.table default) = tbl s.db.root it.table := rfl
+      rw [e'] at this; omega
+  -- all of the sequence was taken
+  have hall : (iterNext s.db ci s.db.root current k).2.1 =
+      pendingOf (tbl s.db.root it.table) it.revision it.deleteRevision := by
+    unfold iterNext
+    rw [hi]
+    simp only
+    split
+    · rename_i hcond
+      exfalso
+      have : iterNext s.db ci s.db.root current k = (s.db, [], false) := by
+        unfold iterNext; rw [hi]; simp only; rw [if_pos hcond]
+      rw [this] at hclosed; cases hclosed
+    · rw [hns]
+      simp only [Bool.false_eq_true, if_false]
+      unfold iterConsume
+      rw [refresh_pending _ _ _ hns]
+      simp only [hk, if_true, List.take_length]
+      rfl
+  rw [hall]
+  exact rs.replay_all hT (by omega) (by omega)
+
+/-- … and after ANY number of consumed changes the view is in step with that root at the iterator's new
+    cursors (partial consumption loses nothing): this is the invariant of the successor state -/
+theorem C07_next_keeps_synced (s s' : St) (h : Reach s) (st : Step s s') (ci : Nat) (it' : ChangeIter)
+    (hi : s'.db.iters[ci]? = some it') (hc : it'.closed = false) (hl : Live s' it') :
+    Synced (s'.view ci) it'.revision it'.deleteRevision (tbl s'.db.root it'.table) :=
+  ((Reach.step h st).inv.reg ci it' hi hc hl).synced
+
+/-- when `Next` returns an open watch channel it delivers nothing -/
+theorem C07_next_open_delivers_nothing (db : DB) (ci : Nat) (committed current : List TableS) (k : Int)
+    (hopen : (iterNext db ci committed current k).2.2 = false) :
+    (iterNext db ci committed current k).2.1 = [] := by
+  cases hi : db.iters[ci]? with
+  | none => unfold iterNext; rw [hi]
+  | some it =>
+    rcases iterNext_spec db ci committed current k it hi with ⟨e, _, _⟩ | ⟨_, e⟩ | ⟨_, ht, _⟩
+    · rw [e]
+    · rw [e]
+    · rw [ht] at hopen; cases hopen
+
+/-! ## the watch channel -/
+
+/-- a successful `modify` marks the entry dirty: the commit will bump the table's watch generation -/
+theorem C07_modify_marks_dirty (t : TableS) (g : Nat) (o : Obj) (m : Bool) (hok : (modify t g o m).2.2 = .ok) :
+    (modify t g o m).1.revDirty = true := by
+  rcases modify_spec t g o m with e | ⟨_, _, _, _, _, _, _, _, _, hd, _⟩
+  · have := modify_ok_rev t g o m hok
+    rw [e] at this; omega
+  · exact hd
+
+/-- a `delete` that removed an object marks the entry dirty -/
+theorem C07_delete_marks_dirty (t : TableS) (g : Nat) (id : Key) (old : Obj) (hold : t.primary.get id = some old)
+    (hok : (delete t g id).2.2 = .ok) (hl : t.locked = true) : (delete t g id).1.revDirty = true := by
+  rcases delete_spec t g id with e | ⟨_, _, _, _, _, _, _, _, _, _, _, hd, _⟩
+  · have := delete_ok_rev t g id old hold hok hl
+    rw [e] at this; omega
+  · exact hd
+
+/-- **the channel closes as soon as a commit that changed the table is published**: in every reachable
+    state, committing a write transaction whose entry for the iterator's table is dirty makes the
+    iterator's watch channel read closed -/
+theorem C07_commit_closes_channel (s : St) (h : Reach s) (es : List TableS) (hw : s.db.wtxn = some es)
+    (ci : Nat) (it : ChangeIter) (hi : s.db.iters[ci]? = some it)
+    (hl : (tbl es it.table).locked = true) (hd : (tbl es it.table).revDirty = true) :
+    watchClosed s.db.commit it = true := by
+  unfold watchClosed
+  cases hg : it.watchGen with
+  | none => rfl
+  | some g =>
+    simp only
+    have hle := h.inv2.watchLe ci it g hi hg
+    have hroot := tbl_commit s.db es hw (h.inv.wOld es hw).2 it.table
+    rw [hl] at hroot
+    simp only [if_true] at hroot
+    have : (s.db.commit.root.getD it.table default) = commitEntry (tbl es it.table) := hroot
+    rw [this, commitEntry_gen, hd, (h.inv2.wgen es hw it.table).gen]
+    simp only [if_true, gt_iff_lt, decide_eq_true_eq]
+    omega
+
+/-- **an open channel means nothing was missed**: in every reachable state, when `Next` on the committed
+    root returns an open watch channel for an iterator in good standing, there is nothing pending — the
+    iterator has seen every live object and every retained deletion, and the replay of everything
+    delivered so far IS the committed table.  Together with `C07_commit_closes_channel`: a consumer that
+    waits on the returned channel never misses a change. -/
+theorem C07_open_channel_nothing_missed (s : St) (h : Reach s) (ci : Nat) (it : ChangeIter) (k : Int)
+    (current : List TableS)
+    (hi : s.db.iters[ci]? = some it) (hc : it.closed = false) (hl : Live s it)
+    (hopen : (iterNext s.db ci s.db.root current k).2.2 = false) :
+    pendingOf (tbl s.db.root it.table) it.revision it.deleteRevision = [] ∧
+    ∀ id, s.view ci id = (tbl s.db.root it.table).primary.get id := by
+  obtain ⟨rs, rr, rd, rm, rb, _⟩ := h.inv.reg ci it hi hc hl
+  have hT := h.inv.rootT it.table
+  have hb := hT.bound
+  rcases iterNext_spec s.db ci s.db.root current k it hi with ⟨_, hp, hwc⟩ | ⟨hst, _⟩ | ⟨_, ht, _⟩
+  · unfold watchClosed at hwc
+    cases hg : it.watchGen with
+    | none => rw [hg] at hwc; cases hwc
+    | some g =>
+      rw [hg] at hwc
+      simp only [gt_iff_lt, decide_eq_false_iff_not, Nat.not_lt] at hwc
+      have hcu := h.inv2.idle ci it g hi hc hl hg hp hwc
+      refine ⟨?_, rs.final hT hcu.1 hcu.2⟩
+      rw [List.eq_nil_iff_forall_not_mem]
+      intro c hcm
+      obtain ⟨_, hcase⟩ := (mem_pendingOf hT _ _ (by omega) (by omega) c).mp hcm
+      rcases hcase with ⟨_, hm, hlt⟩ | ⟨_, hm, hlt⟩
+      · have := hcu.1 _ _ ((hT.pr c.obj).mpr hm); omega
+      · have := hcu.2 _ _ ((hT.gg c.obj).mpr hm); omega
+  · exfalso
+    have := (stale_iff it s.db.root).mp hst
+    have e' : (s.db.root.getD it.table default) = tbl s.db.root it.table := rfl
+    rw [e'] at this; omega
+  · rw [ht] at hopen; cases hopen
+
+/-- an iterator created in the open write transaction after writes of that transaction gets, from `Next`,
+    the stale snapshot's own channel; the commit of that (dirty) transaction closes it
+    (`C07_commit_closes_channel`), and the iterator is then in good standing with nothing delivered:
+    the first `Next` after the commit delivers the whole committed table -/
+theorem C07_created_after_writes_starts_empty (s : St) (h : Reach s) (es : List TableS) (hw : s.db.wtxn = some es)
+    (ci : Nat) (it : ChangeIter) (hi : s.db.iters[ci]? = some it) (hc : it.closed = false)
+    (hr : it.tracker ∈ (tbl es it.table).trackers) (hnr : it.tracker ∉ (tbl s.db.root it.table).trackers)
+    (hb : (tbl s.db.root it.table).rev < it.base) :
+    s.log ci = [] ∧ it.revision = 0 :=
+  let p := h.inv.pend es hw ci it hi hc hr hnr hb
+  ⟨p.log, p.rev0⟩
+
+/-! ## a limit of the property, and the repaired corner
+
+Both runs use only the model's own operations (`beginW`, `modify`, `delete`, `commit`, and the restated
+`iterCreate` / `iterNext`). -/
+
+private def oX : Obj := { id := [1], val := 10, uvar := 0, tags := [], pfxs := [], up := false, ord := 0, rev := 0 }
+private def wr (db : DB) (f : TableS → TableS) : DB := setW db 0 (f (tbl (db.wtxn.getD []) 0))
+
+private def sc0 : DB := (wr (newDB.beginW true true) fun t => (modify t 0 oX false).1).commit
+private def sc1 : DB := iterCreate (wr (sc0.beginW true true) fun t => (delete t 0 [1]).1) 0
+private def sc2 := iterNext sc1 0 sc1.oldRoot [] (-1)
+private def sc3 : DB := sc2.1.commit
+private def sc4 := iterNext sc3 0 sc3.root [] (-1)
+
+/-- the run that used to diverge before `ChangeIter.stale` (`insert X; commit; wtxn; delete X; Changes();
+    Next(wtxn); commit; Next`): `Next(wtxn)` inside the creating transaction now delivers nothing, and
+    after the commit the replayed view and the table agree on `X` -/
+example :
+    sc2.2.1 = [] ∧ sc4.2.1 = [] ∧
+    replay (fun _ => none) (sc2.2.1 ++ sc4.2.1) [1] = none ∧ (tbl sc4.1.root 0).primary.get [1] = none := by
+  refine ⟨by decide +kernel, by decide +kernel, by decide +kernel, by decide +kernel⟩
+
+private def sd0 : DB := (wr (newDB.beginW true true) fun t => (modify t 0 oX false).1).commit
+private def sd1 : DB := (iterCreate (sd0.beginW true true) 0).commit
+private def sd2 : DB := (wr (sd1.beginW true true) fun t => (delete t 0 [1]).1).commit      -- the older snapshot
+private def sd3 : DB := (wr (sd2.beginW true true) fun t => (modify t 0 oX false).1).commit  -- the newer snapshot
+private def sd4 := iterNext sd3 0 sd3.root [] 1             -- Next(newer), one change taken: U X@3
+private def sd5 := iterNext sd4.1 0 sd2.root [] (-1)        -- Next(older): D X@2
+private def sd6 := iterNext sd5.1 0 sd5.1.root [] (-1)      -- Next(current): nothing
+
+/-- **an OLDER snapshot passed to `Next` after a newer one** (sequence of the newer one not run off its
+    end): the deletion of the older snapshot is delivered after the re-insert of the newer one, and the
+    next call on the current root reports pending changes, delivers nothing, and leaves the replayed view
+    without the object the table contains -/
+theorem C07_older_snapshot_refuted :
+    sd4.2.2 = true ∧ sd4.2.1.map (fun c => (c.deleted, c.rev)) = [(false, 3)] ∧
+    sd5.2.2 = true ∧ sd5.2.1.map (fun c => (c.deleted, c.rev)) = [(true, 2)] ∧
+    sd6.2.2 = true ∧ sd6.2.1 = [] ∧
+    replay (fun _ => none) (sd4.2.1 ++ sd5.2.1 ++ sd6.2.1) [1] = none ∧
+    (tbl sd6.1.root 0).primary.get [1] ≠ none := by
+  refine ⟨by decide +kernel, by decide +kernel, by decide +kernel, by decide +kernel, by decide +kernel,
+    ?_, by decide +kernel, by decide +kernel⟩
+  decide +kernel
+
+/-! ## non-vacuity -/
+
+/-- a concrete non-trivial table: one live object at revision 2, one retained deletion at revision 3 -/
+def c07Table : TableS :=
+  let t0 : TableS := { locked := true, trackers := [1] }
+  let o1 : Obj := { id := [1], val := 10, uvar := 0, tags := [], pfxs := [], up := false, ord := 0, rev := 0 }
+  let o2 : Obj := { id := [2], val := 20, uvar := 0, tags := [], pfxs := [], up := false, ord := 1, rev := 0 }
+  let t1 := (modify t0 0 o1 false).1
+  let t2 := (modify t1 0 o2 false).1
+  (delete t2 0 [1]).1
+
+example : c07Table.rev = 3 ∧ c07Table.primary.length = 1 ∧ c07Table.grave.length = 1 := by decide
+
+/-- it is reachable, hence satisfies the invariant -/
+theorem c07Table_reach : TReach c07Table := by
+  refine TReach.step (TReach.step (TReach.step (TReach.init _ rfl rfl rfl rfl rfl)
+    (TStep.modify _ 0 _ false ?_)) (TStep.modify _ 0 _ false ?_)) (TStep.delete _ 0 [1] ?_)
+  all_goals decide
+
+example : TInv c07Table := C07_table_invariant_reachable _ c07Table_reach
+
+/-- the hypotheses of `C07_replay_from_liveUpTo` are satisfiable, and its conclusion is non-trivial -/
+example : ∀ id, replay (liveUpTo c07Table 0) (pendingOf c07Table 0 0) id = c07Table.primary.get id :=
+  C07_replay_from_liveUpTo c07Table (C07_table_invariant_reachable _ c07Table_reach) 0 0 (by decide) (by decide)
+
+/-- a reachable database state with a registered, open iterator: begin, `Changes()`, commit -/
+def c07State : St :=
+  { St.init with db := ((iterCreate (St.init.db.beginW true true) 0).commit) }
+
+theorem c07State_reach : Reach c07State :=
+  Reach.step (Reach.step (Reach.step Reach.init (Step.beginW _ true true rfl)) (Step.create _ 0)) (Step.commit _)
+
+/-- the hypotheses of `C07_reachable_synced` / `C07_next_full_yields_snapshot` are satisfiable -/
+example : ∃ it, c07State.db.iters[0]? = some it ∧ it.closed = false ∧
+    it.tracker ∈ (tbl c07State.db.root it.table).trackers := by
+  refine ⟨_, rfl, ?_, ?_⟩
+  · rfl
+  · decide
+
 end Sdb
